@@ -6,7 +6,7 @@ import subprocess
 hook_commits = subprocess.run(["git", "-C", "/repo", "log", "--format=%h %s", "--reverse"], capture_output=True, text=True).stdout.splitlines()
 hooks = [l.split()[0] for l in hook_commits if l.split(" ", 1)[1].startswith("verif:")]
 
-TECH = "deterministic simulation with fault injection: seeded search over schedules, crash points and store faults (synctest bubble, one-runnable-at-a-time scheduler, simulated store), oracle = validity of the persisted log as linearisation witness"
+TECH = "deterministic simulation with fault injection: seeded search over schedules (explicit decision lists, pseudo-random tails, PCT-style priorities), crash points, orderly shutdowns, store errors / outages / ambiguous commits, read failures, request cancellations and clock jumps / storms (synctest bubble with a discrete-event clock, one-runnable-at-a-time scheduler, simulated PostgreSQL store; half of the workers run a source-rewritten copy of the engine with a scheduling point after every statement and around every mutex operation); oracle = validity of the persisted log as linearisation witness; every violation is minimised, written as a replay file and reproduced in a fresh process before it is reported"
 
 CHECKS = {
  "C02": ("exploration", "6.C02",
@@ -76,7 +76,7 @@ m = {
    "kind_free_text": "deterministic simulator driving command.DefaultLocker alone with cancellations at hook points"},
  ],
  "checks": [],
- "notes": "Exit codes: 0 held (possibly KNOWN-FINDING lines), 1 VIOLATION, 2 harness trouble. VERIF_SEED selects the PRNG stream (default 1). Replay: ./check replay <file>. Genuine defects found and repaired are listed in known_findings.json (status fixed) and DESIGN.md section 11.",
+ "notes": "Exit codes: 0 held (possibly KNOWN-FINDING lines), 1 VIOLATION, 2 harness trouble (build, watchdog, a hung or irreproducible run with nothing reproducible found). VERIF_SEED selects the PRNG stream (default 1). Replay: ./check replay <file>. Determinism self-test of both binaries over all checks: ./check selftest [n]. Eleven genuine defects were found on the pinned tree and repaired by fix: commits in /repo; they are listed in known_findings.json (status fixed, suppressing nothing) and DESIGN.md sections 11 and 14.2. What the checks catch and what they miss is recorded per seeded change in seeded/*/meta.json and DESIGN.md section 14.5 (9 rounds, 92 independent breaking changes), false-alarm hunts in benign/ and section 14.6.",
  "not_applicable": [{"property_id": k, "reason": v} for k, v in sorted(NA.items())],
 }
 for p in have:
